@@ -23,6 +23,8 @@ def jobs_for(ctx, n):
         for iface in iterlib.ifaces_for(spec):
             for sh in (0, rng.choice([1, 3, 50])):
                 reqs.append({"iface": iface, "split": 0, "shuffle": sh, "repeat": False, "file_parallelism": rng.choice([1, 2, 3, 5])})
+            # a repeating stream must not skip the unreadable shard epoch after epoch: ask for several epochs' worth of examples
+            reqs.append({"iface": iface, "split": 0, "shuffle": rng.choice([0, 2, 50]), "repeat": True, "file_parallelism": rng.choice([1, 2, 3]), "take": 90})
         jobs.append({"dataset": spec, "requests": reqs, "damage": {"split": 0, "which": which, "kind": kind}})
     return jobs
 
@@ -64,6 +66,9 @@ def run(ctx):
             if cls == "hang":
                 ctx.report(f"hang:{q['iface']}", f"{q['iface']} shuffle={q['shuffle']} fp={q['file_parallelism']} on {job['dataset']['format']}/{job['dataset']['compression'] or 'none'} with the {dmg['which']} shard {dmg['kind']}: "
                                                 f"no error and no end within the watchdog", {"job": one})
+            elif cls == "ended" and q.get("repeat"):
+                ctx.report(f"repeating-stream-skips-shard:{q['iface']}", f"{q['iface']} shuffle={q['shuffle']} fp={q['file_parallelism']} repeat=True on {job['dataset']['format']}/{job['dataset']['compression'] or 'none'} "
+                                                                           f"with the {dmg['which']} shard {dmg['kind']}: {len(o['out'])} examples ({len(o['out']) // max(1, len(ref['seq']) - len(lost))} epochs of the readable shards) were delivered and no error was raised", {"job": one})
             elif cls == "ended" and not set(lost) <= set(o["out"]):
                 ctx.report(f"silent-truncation:{q['iface']}", f"{q['iface']} shuffle={q['shuffle']} fp={q['file_parallelism']} on {job['dataset']['format']}/{job['dataset']['compression'] or 'none'} with the {dmg['which']} shard {dmg['kind']}: "
                                                               f"the pass ended normally with {len(o['out'])} of {len(ref['seq'])} examples", {"job": one})
